@@ -33,3 +33,21 @@ package kmerindex
 //@   loop 2 invariant high > start ==> !validAt(ki, s, high - 1)
 //@   loop 2 invariant lastCall(0) < position && forall p int :: p >= start ==> (calledAt(p) <==> (p < position && validWindow(ki, s, p)))
 //@   loop 2 decreases end - basePosition
+
+// ---- KmerPositions (C10): the positions of a word are the block of pos delimited by the finger table ----
+// built(ki): what Build establishes - the finger table has one entry per word plus one, is non-decreasing and
+// stays within pos (assumed here as a precondition; Build itself is covered by the bounded stand-in C10.index).
+//@ global ErrBadKmer != nil
+//@ spec built(ki *Index) bool = ki != nil && len(ki.finger) == ki.kMask + 2
+//@       && (forall a int, b int :: 0 <= a && a <= b && b < len(ki.finger) ==> ki.finger[a] <= ki.finger[b])
+//@       && (forall a int :: 0 <= a && a < len(ki.finger) ==> 0 <= ki.finger[a] && ki.finger[a] <= len(ki.pos))
+//@ func (*Index).KmerPositions
+//@   property C10
+//@   requires built(ki)
+//@   ensures [range]     (kmer > ki.kMask) <==> err != nil
+//@   ensures [count]     err == nil ==> len(positions) == ki.finger[kmer] - (kmer > 0 ? ki.finger[kmer-1] : 0)
+//@   ensures [positions] err == nil ==> forall l int :: 0 <= l && l < len(positions) ==> positions[l] == ki.pos[(kmer > 0 ? ki.finger[kmer-1] : 0) + l]
+//@   assigns fresh
+//@   loop 1 invariant 0 <= idx && idx <= j - i && len(positions) == j - i && fresh(positions) && i == (kmer > 0 ? ki.finger[kmer-1] : 0) && j == ki.finger[kmer] && i <= j && j <= len(ki.pos)
+//@   loop 1 invariant forall l int :: 0 <= l && l < idx ==> positions[l] == ki.pos[i + l]
+//@   loop 1 writes fresh
